@@ -101,6 +101,37 @@ func runOverlayTest(repo, pkg, src, name string) (string, bool) {
 
 // tryReplay builds a concrete input from a solver model of the failed obligation and runs the real function on it.
 func tryReplay(p *Prog, o *Obligation, replayFile, repo string) (bool, any) {
+	ok, info := tryReplayOne(p, o, replayFile, repo)
+	if ok {
+		return ok, info
+	}
+	// bounded counterexample search: unroll the loops and ask for models of the unrolled paths' obligations
+	deadline := time.Now().Add(90 * time.Second)
+	tried := 0
+	for _, k := range []int{1, 2, 3} {
+		for _, c := range unrolledCandidates(p, o, k) {
+			if time.Now().After(deadline) || tried >= 12 {
+				break
+			}
+			ok2, info2 := tryReplayOne(p, c, replayFile, repo)
+			if m, isMap := info2.(map[string]any); isMap {
+				if att, _ := m["attempted"].(bool); att {
+					tried++
+				}
+				m["search"] = fmt.Sprintf("loops unrolled %d times; model of %s", k, c.Name)
+				if ok2 {
+					return true, m
+				}
+			}
+		}
+	}
+	if m, isMap := info.(map[string]any); isMap {
+		m["unrolled_search"] = fmt.Sprintf("%d candidate models replayed, none failed on the real code", tried)
+	}
+	return false, info
+}
+
+func tryReplayOne(p *Prog, o *Obligation, replayFile, repo string) (bool, any) {
 	src, pkg, how, reason := buildReplayTest(p, o, filepath.Dir(replayFile))
 	if reason != "" {
 		return false, map[string]any{"attempted": false, "reason": reason, "model_from": how}
@@ -132,6 +163,8 @@ func tryReplay(p *Prog, o *Obligation, replayFile, repo string) (bool, any) {
 	info := map[string]any{"attempted": true, "model_from": how, "reproduced_on_real_code": failed, "output": out, "clauses_checked": len(plan.checks) - len(skip)}
 	if !failed && strings.Contains(out, "[build failed]") {
 		info["note"] = "generated test did not compile"
+	}
+	if !failed {
 		info["source"] = src
 	}
 	if failed {
